@@ -17,24 +17,46 @@ variable {env : PEnv} {A : Atoms α} {tight : Bool}
 /-! ### shape of renderings -/
 
 theorem RendersSimple.solid (hA : ∀ a, GoodAtom env A tight a) {sk : Sk α} {t : Input}
-    (h : RendersSimple A tight sk t) : Solid t := by
+    (h : RendersSimple env A tight sk t) : Solid t := by
   cases h with
   | atom a => exact (hA a).solid
-  | not al ws hal _ _ => exact unary_solid hal _
+  | not al ws hal _ _ _ => exact unary_solid hal _
   | paren ws₁ ws₂ _ _ _ => exact ⟨'(', _, rfl, by decide⟩
 
 theorem Renders.solid (hA : ∀ a, GoodAtom env A tight a) {sk : Sk α} {t : Input}
-    (h : Renders A tight sk t) : Solid t := by
+    (h : Renders env A tight sk t) : Solid t := by
   cases h with
   | simple hs => exact hs.solid hA
   | chain hf _ => exact (hf.solid hA).append _
 
 theorem RendersSimple.notCombining (hA : ∀ a, GoodAtom env A tight a) {sk : Sk α} {t : Input}
-    (h : RendersSimple A tight sk t) : isCombining (canon A sk) = false := by
+    (h : RendersSimple env A tight sk t) : isCombining (canon A sk) = false := by
   cases h with
   | atom a => exact (hA a).notCombining
-  | not al ws _ _ _ => rfl
+  | not al ws _ _ _ _ => rfl
   | paren ws₁ ws₂ _ _ _ => rfl
+
+/-- a simple rendering that does not end with an atom contains a `)` (it ends with one) -/
+theorem RendersSimple.mem_paren : ∀ (sk : Sk α) (t : Input), RendersSimple env A tight sk t →
+    endsAtom sk = false → ')' ∈ t
+  | .atom _, _, _, he => by simp [endsAtom] at he
+  | .not s, _, h, he => by
+    cases h with
+    | not al ws _ _ _ hx =>
+      have := RendersSimple.mem_paren s _ hx (by simpa [endsAtom] using he)
+      simp [this]
+  | .paren _, _, h, _ => by
+    cases h with
+    | paren ws₁ ws₂ _ _ _ => simp
+  | .chain _ _, _, h, _ => by cases h
+
+/-- what may follow a simple rendering does not extend its first run of name characters -/
+theorem RendersSimple.nameRun_stop {sk : Sk α} {t : Input} (h : RendersSimple env A tight sk t)
+    (rest : Input) (hrest : endsAtom sk = true → Stop tight rest = true) :
+    nameRun (t ++ rest) = nameRun t := by
+  cases he : endsAtom sk with
+  | true => exact nameRun_append_stop t (gluedTo_stop (hrest he))
+  | false => exact nameRun_append_mem (RendersSimple.mem_paren sk t h he) (by decide) rest
 
 theorem nodesOf_itemsOf (A : Atoms α) (r : List (LogicalOp × Sk α)) :
     nodesOf (itemsOf A r) = canonRest A r := by
@@ -55,7 +77,7 @@ theorem itemsOf_ty (A : Atoms α) (r : List (LogicalOp × Sk α)) :
   rfl
 
 theorem tail_notCombining (hA : ∀ a, GoodAtom env A tight a) :
-    ∀ (r : List (LogicalOp × Sk α)) (b : Bool) (u : Input), RendersTail A tight b r u →
+    ∀ (r : List (LogicalOp × Sk α)) (b : Bool) (u : Input), RendersTail env A tight b r u →
       ∀ it ∈ itemsOf A r, isCombining it.2.node = false := by
   intro r
   induction r with
@@ -72,7 +94,7 @@ theorem tail_notCombining (hA : ∀ a, GoodAtom env A tight a) :
 
 /-- what follows the operand before a rendered tail -/
 theorem tail_stop {r : List (LogicalOp × Sk α)} {b : Bool} {u : Input}
-    (h : RendersTail A tight b r u) (rest : Input)
+    (h : RendersTail env A tight b r u) (rest : Input)
     (hrest : lastEnds b r = true → Stop tight rest = true) (hb : b = true) :
     Stop tight (u ++ rest) = true := by
   cases h with
@@ -85,20 +107,20 @@ theorem tail_stop {r : List (LogicalOp × Sk α)} {b : Bool} {u : Input}
 
 /-- `lex_simple_expr` on renderings shorter than `K` -/
 def SimpleOK (env : PEnv) (A : Atoms α) (tight : Bool) (K : Nat) : Prop :=
-  ∀ (sk : Sk α) (t : Input), t.length < K → RendersSimple A tight sk t →
+  ∀ (sk : Sk α) (t : Input), t.length < K → RendersSimple env A tight sk t →
     ∀ n, depth sk ≤ n → ∀ rest, (endsAtom sk = true → Stop tight rest = true) →
       simpleL env (lowerOf env n) (t ++ rest) = .ok ({ node := canon A sk, ty := .bool }, rest)
 
 /-- `lex_with` on renderings shorter than `K` -/
 def LogicalOK (env : PEnv) (A : Atoms α) (tight : Bool) (K : Nat) : Prop :=
-  ∀ (sk : Sk α) (t : Input), t.length < K → Renders A tight sk t →
+  ∀ (sk : Sk α) (t : Input), t.length < K → Renders env A tight sk t →
     ∀ n, depth sk ≤ n → ∀ rest, Admissible tight sk rest →
       logicalL env (lowerOf env n) (t ++ rest) = .ok ({ node := canon A sk, ty := .bool }, rest)
 
 /-- layer 3: a rendered tail unfolds into its operands -/
 theorem tail_unfolds (hA : ∀ a, GoodAtom env A tight a) (K : Nat)
     (hS : SimpleOK env A tight K) (n : Nat) :
-    ∀ (r : List (LogicalOp × Sk α)) (b : Bool) (u : Input), RendersTail A tight b r u →
+    ∀ (r : List (LogicalOp × Sk α)) (b : Bool) (u : Input), RendersTail env A tight b r u →
       u.length < K → depthRest r ≤ n →
       ∀ rest, (lastEnds b r = true → Stop tight rest = true) → NoOp rest = true →
         Unfolds (simpleL env (lowerOf env n)) (u ++ rest) (itemsOf A r) rest := by
@@ -139,12 +161,13 @@ theorem all_ok (hA : ∀ a, GoodAtom env A tight a) :
       intro sk t hlen h n hd rest hstop
       cases h with
       | atom a => exact (hA a).simple n rest (hstop rfl)
-      | @not s t' al ws hal hws hx =>
+      | @not s t' al ws hal hws hglue hx =>
         have hd' : depth s + 1 ≤ n := hd
         obtain ⟨m, rfl⟩ : ∃ m, n = m + 1 := ⟨n - 1, by omega⟩
         have hl := unary_length hal
         simp only [List.length_append] at hlen
-        rw [lowerOf_succ, List.append_assoc, simpleL_unary env _ al hal, List.append_assoc,
+        rw [lowerOf_succ, List.append_assoc, List.append_assoc,
+          simpleL_unary env _ al hal hws hglue (hx.solid hA) (hx.nameRun_stop rest hstop),
           skipSpace_layout_solid hws ((hx.solid hA).append rest), level_simple,
           ihS s t' (by omega) hx m (by omega) rest hstop]
         rfl
